@@ -623,6 +623,7 @@ def run(res, tier):
     py_recv_rule(res, py)
     cmini_consistency_rules(res, fx)
     c_unlink_rule(res, fx)
+    cmini_null_slot_rule(res, fx)
     # the header's encoding word has to describe the body it precedes (the rule lives with the zlib stream discipline in C03; here it is the header/body agreement of the frame)
     from .C03 import codec_step_rule
     codec_step_rule(res, fx, min_sites=1)
@@ -690,3 +691,50 @@ def py_recv_rule(res, py):
                                    % (st.lineno, pyast.unparse(st.value.args[0]) if hasattr(pyast, 'unparse') else '?', acc, acc))
     if n_sites < 2:
         raise AnalysisBroken('RECV-EXACT: fewer than 2 accumulating recv() sites found in message_transceiver_thread.py (%d)' % n_sites)
+
+
+def cmini_null_slot_rule(res, fx):
+    """the mini codec writes a 12-byte empty Message for a NULL slot of a Message field (the protocol has no NULL); the size function, the length word and the writer are three
+    sites that each decide what a NULL slot contributes, and they have to decide the same"""
+    res.rule('NULL-SLOT-AGREE', 'MiniMessage.c: every site that asks MMGetFlattenedSize() about a sub-Message slot under a NULL test of that slot gives the NULL alternative the same treatment '
+                                '(a non-zero placeholder size at all sites, or nothing at all sites)', floor=2)
+    sites = []
+    for f in sorted((g for g in fx.funcs.values() if g.full and g.file.endswith('minimessage/MiniMessage.c')), key=lambda g: g.line):
+        for c in f.walk():
+            if not (c.is_call() and (c.get('q') or '') == 'MMGetFlattenedSize' and c.args()):
+                continue
+            key = A.render_key(c.args()[0])
+            verdict = None
+            prev = c
+            for a in c.ancestors():
+                if a['k'] == 'ConditionalOperator' and len(a['ch']) == 3 and any(x is prev for x in (a['ch'][1], a['ch'][2])):
+                    core, pol = P.strip_not(a['ch'][0])
+                    if A.render_key(core) == key:
+                        other = a['ch'][2] if prev is a['ch'][1] else a['ch'][1]
+                        nz = any(isinstance(x.get('v'), int) and x.get('v') != 0 for x in other.walk()) or any(x['k'] == 'UnaryExprOrTypeTraitExpr' for x in other.walk())
+                        verdict = 'placeholder' if nz else 'nothing'
+                        break
+                if a['k'] == 'IfStmt' and a.role('cond') is not None and a.role('then') is not None and any(x is prev for x in a.role('then').walk()):
+                    core, pol = P.strip_not(a.role('cond'))
+                    if A.render_key(core) == key:
+                        el = a.role('else')
+                        if el is None:
+                            verdict = 'nothing'
+                        else:
+                            nz = any(isinstance(x.get('v'), int) and x.get('v') != 0 for x in el.walk()) or any(x['k'] == 'UnaryExprOrTypeTraitExpr' for x in el.walk())
+                            verdict = 'placeholder' if nz else 'nothing'
+                        break
+                prev = a
+            if verdict is not None:
+                sites.append((f, c, verdict))
+    if len(sites) < 2:
+        raise AnalysisBroken('NULL-SLOT-AGREE: fewer than two NULL-tested MMGetFlattenedSize() sites found in MiniMessage.c (%d)' % len(sites))
+    kinds = {}
+    for (f, c, v) in sites:
+        kinds.setdefault(v, []).append((f, c))
+    major = max(kinds.items(), key=lambda kv: len(kv[1]))[0]
+    for (f, c, v) in sites:
+        res.ob('NULL-SLOT-AGREE', f.where(c), '%s: a NULL sub-Message slot is sized like at the other sites (%s)' % (f.q, major), len(kinds) == 1, function=f.q, key='NULL-SLOT-AGREE|%s|%s' % (f.q, v),
+               how=v, message='MiniMessage.c disagrees with itself about NULL sub-Message slots: %s — the size function, the field\'s length word and the writer no longer describe the same bytes, so '
+                              'MMFlattenMessage() overruns the buffer MMGetFlattenedSize() sized and the C++ parser rejects or mis-frames the Message'
+                              % '; '.join('%s at %s' % (k, ', '.join('%s:%s' % (f_.q, c_.get('l')) for (f_, c_) in v_)) for k, v_ in sorted(kinds.items())))
